@@ -92,12 +92,13 @@ def run(F, rep):
                detail=[fmt(ex.operand(t["args"][1])) for _, t in ext], site=site_of(f, ext[0][1]) if ext else None, key="C19-G3 | append lines")
         # the raw byte count of a line includes its terminator (LF vs CRLF): it may only be tested against zero (end of input)
         nraw = 0
+        LR = symbols.line_readers(F)
         for bi, b in enumerate(f.blocks):
             tt = b["term"]
             if tt["k"] != "switch" or b["cleanup"] or tt["sp"].get("exp"):
                 continue
             e = ex.operand(tt["discr"])
-            if not contains(e, lambda x: isinstance(x, tuple) and x[0] == "call" and re.search(r"BufRead>?::read_until$", x[1])):
+            if not contains(e, lambda x: isinstance(x, tuple) and x[0] == "call" and (re.search(r"BufRead>?::read_until$", x[1]) or x[1] in LR)):
                 continue
             if isinstance(e, tuple) and e[0] == "discr":
                 continue            # the `?` on the io::Result itself
@@ -146,8 +147,41 @@ def run(F, rep):
                 s = repr(e)
                 if "trim_start_matches" in s and "::trim'" in s.replace("trim_start_matches", "") and "('const', 62)" in s:
                     okid = True
-        rep.ob("C19-G4", "record id = header line without '>' and surrounding whitespace (trim removes a trailing CR)", okid,
-               site="%s:%d" % (f.file, f.line_lo), key="C19-G4 | id normalisation")
+        # decided by evaluation where the id expression can be evaluated: the returned name, with the header line replaced by
+        # templates (inner double blanks and tabs, CR/LF, blanks around), must be the line without '>' and surrounding whitespace
+        import strint
+        from absint import Panic as _Panic
+        detail4 = ""
+        idexprs = []
+        for e in ids:
+            for x in walk(e):
+                if isinstance(x, tuple) and x[0] == "agg" and x[1] == "tuple":
+                    comp = dict(x[2]).get("0")
+                    if comp is not None:
+                        idexprs.append(comp)
+
+        def subst(e, line):
+            if isinstance(e, tuple) and e and e[0] == "call" and e[1].endswith("String::from_utf8_lossy"):
+                return ("str", line)
+            if isinstance(e, tuple):
+                return tuple(subst(x, line) for x in e)
+            return e
+        templates = [">chr1\n", ">chr1 len=3000  note\r\n", ">ctg2\tlen=3 x\n", "> chr1 \n", ">S1#1#c\r\n", ">a  b\tc", ">x\n"]
+        if idexprs:
+            try:
+                wrong = []
+                for ie in idexprs:
+                    for line in templates:
+                        got = strint.eval_tree(F, subst(ie, line), {})
+                        want = line[1:].strip()
+                        if got != want:
+                            wrong.append("%r is named %r (the header says %r)" % (line, got, want))
+                okid = not wrong
+                detail4 = "; ".join(wrong[:3]) if wrong else "%d header lines evaluated" % len(templates)
+            except (Undecidable, _Panic) as e4:
+                detail4 = "id expression not evaluable (%s); decided by its form" % e4
+        rep.ob("C19-G4", "record id = header line without '>' and surrounding whitespace, inner blanks and tabs kept (trim removes a trailing CR)", okid,
+               detail=detail4, site="%s:%d" % (f.file, f.line_lo), key="C19-G4 | id normalisation")
 
     # ------------------------------------------------------------ G5: the sample name taken from a file name ignores the compression suffix
     g5_rule(F, rep)
